@@ -56,12 +56,13 @@ type Case struct {
 func genSched(t *rapid.T, n int) Sched {
 	var sc Sched
 	sc.JoinOrder = rapid.Permutation(seq(1, n)).Draw(t, "joinorder")
+	// Modes: "none" = all parties start at the same moment, "all" = every
+	// step of every party is delayed, "mixed" = a coin per step.
+	mode := rapid.SampledFrom([]string{"mixed", "mixed", "mixed", "none", "all"}).Draw(t, "delaymode")
 	delay := func(label string) []int {
 		res := make([]int, n)
 		for i := range res {
-			// Half of the delays are zero so that parties also start at
-			// the same moment.
-			if rapid.Bool().Draw(t, label+"?") {
+			if mode == "all" || (mode == "mixed" && rapid.Bool().Draw(t, label+"?")) {
 				res[i] = rapid.IntRange(1, 20).Draw(t, label)
 			}
 		}
@@ -112,7 +113,7 @@ func drawBits(t *rapid.T, w int) *big.Int {
 func genCase(t *rapid.T) Case {
 	n := rapid.IntRange(2, 5).Draw(t, "n")
 	cs := Case{N: n}
-	if rapid.IntRange(0, 99).Draw(t, "fixed?") < 40 {
+	if rapid.SampledFrom([]string{"generated", "generated", "fixed"}).Draw(t, "kind") == "fixed" {
 		fp := fixedProgs[rapid.IntRange(0, len(fixedProgs)-1).Draw(t, "fixedprog")]
 		cs.Fixed = fp.name
 		cs.Width = fp.widths[rapid.IntRange(0, len(fp.widths)-1).Draw(t, "fixedwidth")]
@@ -122,7 +123,7 @@ func genCase(t *rapid.T) Case {
 	} else {
 		o := mpcl.Opts{NumParams: n, MaxStmts: 6, MaxDepth: 3, Helpers: 1,
 			MaxWidth: 24, Arrays: true, Loops: true,
-			NoDiv: rapid.IntRange(0, 99).Draw(t, "nodiv") < 75}
+			NoDiv: rapid.Bool().Draw(t, "nodiv")}
 		cs.Prog = mpcl.Draw(t, o)
 		cs.Inputs = mpcl.DrawInputsN(t, cs.Prog, 0, 2)[0]
 	}
@@ -218,6 +219,7 @@ func prepare(cs Case) (*compiled, *ev.Outcome) {
 		// Whether a program compiles for the GMW target is the business of
 		// C03/C07 (compiler, circuit library), not of the protocol.
 		ev.Get(prop).Count("compile-failed/"+compileErrClass(err), 1)
+		fmt.Printf("c10: skipped, program does not compile for TargetGMW: %v\n%s\n", err, c.src)
 		return skip("program does not compile for TargetGMW (C03/C07 domain)")
 	}
 	c.circ = circ
@@ -480,6 +482,8 @@ func run(cs Case) ev.Outcome {
 	add(cs.Fixed != "", "fixed-program")
 	add(cs.Fixed != "", "fixed:"+cs.Fixed)
 	add(cs.Fixed == "", "generated-program")
+	add(cs.Fixed == "" && sh.levels >= 2 && sh.partial, "generated-program-nontrivial")
+	add(cs.Fixed == "" && (strings.Contains(c.src, " / ") || strings.Contains(c.src, " % ")), "generated-program-with-division")
 	add(sh.levels == 0, "and-levels=0")
 	add(sh.levels == 1, "and-levels=1")
 	add(sh.levels >= 2, "and-levels>=2")
